@@ -353,3 +353,9 @@ Qed.
 (* set_response_timeout writes every per-kind timeout field Transport::run reads *)
 Lemma config_setter_covers_run : set_rt_covers_run_reads = true /\ cfg_response_timeout_fields = 3.
 Proof. split; reflexivity. Qed.
+
+(* the largest request the stream framing accepts fits its 16 bit length prefix:
+   a longer one would be written with a wrapped length and desynchronise the
+   connection for every request multiplexed on it *)
+Lemma stream_frame_length_fits : stream_max_message_len < 65536 /\ stream_max_message_len = 65535.
+Proof. split; reflexivity. Qed.
